@@ -55,7 +55,7 @@ func extractWorker() {
 					a.err = src(as.Rhs[0])
 				}
 			}
-			if mentions(cc.Body, "progress.Finished") {
+			if stmtsMention(cc.Body, "progress.Finished") {
 				// the response arm: what it does for a finished and for an
 				// unfinished response, however the two branches are spelled
 				a.end = "finished:" + outcome(cc.Body, true) + ";unfinished:" + outcome(cc.Body, false)
@@ -141,8 +141,8 @@ func extractWorker() {
 	facts["worker"] = shape
 }
 
-// mentions reports whether the statements refer to expr textually.
-func mentions(stmts []ast.Stmt, expr string) bool {
+// stmtsMention reports whether the statements refer to expr textually.
+func stmtsMention(stmts []ast.Stmt, expr string) bool {
 	for _, st := range stmts {
 		if strings.Contains(src(st), expr) {
 			return true
